@@ -141,6 +141,21 @@ def install(cfg):
             return seq.items[k]
         raise Unsupported("random.choice over a symbolic sequence")
 
+    @cfg.stub(random.shuffle)
+    def random_shuffle(interp, seq):
+        # in-place permutation: what matters to the proofs is that it is a WRITE to the list (frame conditions);
+        # the order afterwards is some permutation -- for a list of <= 2 concrete items both orders are explored
+        if isinstance(seq, HList) and seq.mode == "c":
+            interp.note_write(seq, ("shuffle",), None)
+            if len(seq.items) == 2:
+                sw = z3.Bool("random.shuffle!%d" % next_cell(interp.ctx))
+                if interp.ctx.branch(sw):
+                    seq.items[0], seq.items[1] = seq.items[1], seq.items[0]
+                return None
+            if len(seq.items) < 2:
+                return None
+        raise Unsupported("random.shuffle over a symbolic or long sequence")
+
     # ---- re (the one RFC 7797 pattern) ----------------------------------------------------
     def re_match(interp, recv, args, kwargs):
         pat = recv.pattern
@@ -694,6 +709,10 @@ def install_jwe(cfg):
 
     def pbkdf2_derive(interp, o, a, kw):
         pw = _bytes(interp, a[0], "derive")
+        # observed on this image (cryptography's OpenSSL binding): an iteration count that does not fit a C int makes
+        # derive() panic -- pyo3_runtime.PanicException, a BaseException that is neither JoseError nor ValueError
+        if interp.ctx.branch(o.f["iterations"] > z3.IntVal(2 ** 31 - 1)):
+            interp.raise_(BaseException, "PanicException: called `Result::unwrap()` on an `Err` value: TryFromIntError(PosOverflow)")
         r = PBKDF2(z3.StringVal(o.f["hname"]), pw, o.f["salt"], o.f["iterations"], o.f["length"])
         interp.ctx.axiom(z3.Length(r) == o.f["length"], "PBKDF2: output has the requested length")
         interp.ctx.events.append(("pbkdf2", o.f["hname"], pw, o.f["salt"], o.f["iterations"], o.f["length"]))
